@@ -28,7 +28,7 @@ let parse_call a cl su =
                 e_ca = ca <> 0; e_sid = z_of_int (sbyte sid); e_hs = z_of_int (sbyte hs); e_verify = z_of_int vr;
                 e_peer = (if peer <> 0 then Some (parse_subject (bytes_of_hex su)) else None);
                 e_dup = dup <> 0; e_netw = z_of_int (sbyte nw) } in
-      ((if op = 0 then OpVerify else OpIsAuth), e)
+      ((match op with 0 -> OpVerify | 1 -> OpIsAuth | 2 -> OpFree | _ -> raise Exit), e)
   | _ -> raise Exit
 
 let parse fs = match fs with
@@ -69,7 +69,7 @@ let parse_obs t =
   | _ -> raise Exit
 
 let spec fs obs =
-  try match parse fs with
+  try match (try parse fs with Exit -> None) with
     | None -> "pre"
     | Some (st, cs) ->
         if List.mem "CRASH" obs || List.mem "TIMEOUT" obs then "bad:crash"
